@@ -34,6 +34,37 @@ use crate::{
 /// real-world OPEN/BEGIN/ATTACH frames carry single-digit element counts.
 pub const MAX_ARRAY_COUNT: usize = 65_536;
 
+/// How deep compound values (lists, maps, arrays, described and composite types) may nest.
+/// The bytes come from the peer: without a bound a few kilobytes of nested lists exhaust the
+/// stack of the decoding thread, which aborts the process.
+const MAX_NESTING_DEPTH: usize = 256;
+
+thread_local! {
+    static NESTING_DEPTH: std::cell::Cell<usize> = const { std::cell::Cell::new(0) };
+}
+
+/// Counts one level of nesting for as long as it lives
+struct NestingGuard;
+
+impl NestingGuard {
+    fn enter() -> Result<Self, Error> {
+        NESTING_DEPTH.with(|depth| {
+            if depth.get() >= MAX_NESTING_DEPTH {
+                Err(Error::InvalidValue)
+            } else {
+                depth.set(depth.get() + 1);
+                Ok(NestingGuard)
+            }
+        })
+    }
+}
+
+impl Drop for NestingGuard {
+    fn drop(&mut self) {
+        NESTING_DEPTH.with(|depth| depth.set(depth.get().saturating_sub(1)));
+    }
+}
+
 /// Deserialize an instance of type T from an IO stream
 pub fn from_reader<T: de::DeserializeOwned>(reader: impl std::io::Read) -> Result<T, Error> {
     let reader = IoReader::new(reader);
@@ -827,6 +858,7 @@ where
     where
         V: de::Visitor<'de>,
     {
+        let _nesting = NestingGuard::enter()?;
         if name == SYMBOL {
             self.non_native_type = Some(NonNativeType::Symbol);
             // Leave symbol as visit_string because serde(untagged)
@@ -865,6 +897,7 @@ where
     where
         V: de::Visitor<'de>,
     {
+        let _nesting = NestingGuard::enter()?;
         let code = self
             .get_elem_code_or_read_format_code()
             .ok_or_else(|| Error::unexpected_eof("Expecting format code"))??;
@@ -1001,6 +1034,7 @@ where
     where
         V: de::Visitor<'de>,
     {
+        let _nesting = NestingGuard::enter()?;
         // Tuple will always be deserialized as List
         let code = self
             .get_elem_code_or_read_format_code()
@@ -1062,6 +1096,7 @@ where
     where
         V: de::Visitor<'de>,
     {
+        let _nesting = NestingGuard::enter()?;
         let code = self
             .get_elem_code_or_read_format_code()
             .ok_or_else(|| Error::unexpected_eof("Expecting format code"))??;
@@ -1123,6 +1158,7 @@ where
     where
         V: de::Visitor<'de>,
     {
+        let _nesting = NestingGuard::enter()?;
         if name == DESCRIBED_BASIC {
             self.struct_encoding = StructEncoding::DescribedBasic;
             visitor.visit_seq(DescribedAccess::basic(self, len as u32))
@@ -1150,6 +1186,7 @@ where
     where
         V: de::Visitor<'de>,
     {
+        let _nesting = NestingGuard::enter()?;
         // The name should override parent struct encoding
         let cur_encoding = self.struct_encoding.clone();
         let result = if name == DESCRIBED_BASIC {
@@ -1190,6 +1227,7 @@ where
     where
         V: de::Visitor<'de>,
     {
+        let _nesting = NestingGuard::enter()?;
         use crate::__constants::UNTAGGED_ENUM;
 
         let curr_enum_type = self.enum_type.clone();
